@@ -85,7 +85,7 @@ def run(prop, tier, harnesses):
            '--harness-timeout', '420s' if tier == 'quick' else '1500s', '--output-format', 'terse']
     for n in names:
         cmd += ['--harness', n]
-    res = {'obligations': [], 'failed': {}, 'cmds': [' '.join(cmd[:11]) + ' --harness <each of %d>' % len(names)],
+    res = {'obligations': [], 'failed': {}, 'cmds': [' '.join(c for c in cmd if not c.startswith('--harness') and c not in names)[:400] + ' --harness <each of %d harnesses>' % len(names)],
            'bounded': [], 'complete': [], 'functions': [], 'trusted': [], 'assumptions': [], 'wall_s': {}}
     # serialise kani runs across concurrently running checks (shared target dir)
     lock = open(os.path.join(WORK, 'kani.lock'), 'w')
